@@ -1826,17 +1826,24 @@ def rt_c04(tier="quick", first_only=False, count=None):
                 cdf = np.concatenate([[0.0], np.cumsum((p[1:] + p[:-1]) / 2 * np.diff(g))])
                 margs = [(g, cdf, smp[:, 0])] if smp is not None else []
             else:
-                g = np.linspace(-30, 30, 1201)
-                X, Y = np.meshgrid(g, g, indexing="ij")
-                pts = jnp.asarray(np.stack([X.ravel(), Y.ravel()], 1))
-                p = np.exp(np.asarray(lp(pts))).reshape(X.shape)
-                total = np.trapezoid(np.trapezoid(p, g, axis=1), g)
-                margs = []
-                for ax in (0, 1):
-                    m = np.trapezoid(p, g, axis=1 - ax)
-                    cdf = np.concatenate([[0.0], np.cumsum((m[1:] + m[:-1]) / 2 * np.diff(g))])
-                    if smp is not None:
-                        margs.append((g, cdf, smp[:, ax]))
+                def quad2(g):
+                    X, Y = np.meshgrid(g, g, indexing="ij")
+                    pts = jnp.asarray(np.stack([X.ravel(), Y.ravel()], 1))
+                    p = np.exp(np.asarray(lp(pts))).reshape(X.shape)
+                    tot = np.trapezoid(np.trapezoid(p, g, axis=1), g)
+                    mg = []
+                    for ax in (0, 1):
+                        m = np.trapezoid(p, g, axis=1 - ax)
+                        cdf = np.concatenate([[0.0], np.cumsum((m[1:] + m[:-1]) / 2 * np.diff(g))])
+                        if smp is not None:
+                            mg.append((g, cdf, smp[:, ax]))
+                    return tot, mg
+
+                total, margs = quad2(np.linspace(-30, 30, 1201))
+                if not abs(total - 1.0) < 5e-3:
+                    # mass outside the window is not a defect (layers with nearly flat linear tails spread the density over a
+                    # huge range): repeat on a sinh-spaced grid covering +-1.6e4 with fine resolution near the origin
+                    total, margs = quad2(np.sinh(np.linspace(-10.4, 10.4, 2401)))
             if not abs(total - 1.0) < 5e-3:
                 fails.append(dict(what=f"{name}: exp(log_prob) integrates to {total:.5f} (deterministic quadrature), not 1", case=case))
             for ax, (gg, cdf, s) in enumerate(margs):
